@@ -8,7 +8,7 @@ Everything the C09 theorems quantify over is transcribed here from the working t
     `image-rendering` values, `style`/`class`, `tspan`+`href`), the `inherit` keyword test, the `marker`
     shorthand targets and the `has_precedence` expression of `insert_attribute`,
   * the `resolve_inherit` default table (parse.rs),
-  * the unit arms of `convert_length` and of `resolve_font_size` (units.rs).
+  * the unit arms of `resolve_font_size` (units.rs; those of `convert_length` are in Gen/Units.v, gen_units.py).
 An anchor that is not found exactly once is a broken tie (api.broken), never a silent default.
 """
 import re
@@ -210,18 +210,11 @@ def parse_tables(rd):
     t['inherit_copies_important'] = True
 
     units = strip_comments(rd(UNITS))
-    cl = fn_body(units, 'convert_length')
-    if not re.search(r"let dpi = state\.opt\.dpi;\s*let n = length\.number as f32;", cl):
-        raise Missing("convert_length: bindings of dpi / n changed")
-    m = one(r"Unit::None \| Unit::Px => (\w+),", cl, "convert_length px arm")
-    if m.group(1) != 'n':
-        raise Missing("convert_length: px arm is %r" % m.group(1))
-    t['len'] = {}
-    for u in UNIT_ORDER:
-        m = one(r"Unit::%s => ([^,]+)," % u, cl, "convert_length arm " + u)
-        t['len'][u] = unit_expr(m.group(1).strip(), "convert_length " + u, ('dpi',))
     fsz = fn_body(units, 'resolve_font_size')
     t['fs'] = {}
+    m = one(r"Unit::None \| Unit::Px => (\w+),", fsz, "resolve_font_size px arm")
+    if m.group(1) != 'n' or not re.search(r"let dpi = state\.opt\.dpi;\s*let n = length\.number as f32;", fsz):
+        raise Missing("resolve_font_size: px arm / bindings of dpi and n changed")
     for u in UNIT_ORDER:
         m = one(r"Unit::%s => ([^,]+)," % u, fsz, "resolve_font_size arm " + u)
         t['fs'][u] = unit_expr(m.group(1).strip(), "resolve_font_size " + u, ('dpi',))
@@ -272,11 +265,8 @@ def render(t, header):
     o.append("(* svgtree/parse.rs: resolve_inherit fallback table *)")
     o.append("Definition inherit_default (x : AId) : option string :=\n  match x with\n%s\n  | _ => None\n  end.\n" % "\n".join(
         '  | A_%s => Some "%s"' % (a, v) for a, v in t['inherit_default']))
-    o.append("Local Open Scope Q_scope.\n(* units.rs: convert_length absolute-unit arms (n = length.number, dpi = state.opt.dpi) *)")
-    o.append("Definition len_Px (n dpi : Q) : Q := n.")
-    for u in UNIT_ORDER:
-        o.append("Definition len_%s (n dpi : Q) : Q := %s." % (u, t['len'][u]))
-    o.append("\n(* units.rs: resolve_font_size absolute-unit arms *)")
+    o.append("Local Open Scope Q_scope.\n(* units.rs: resolve_font_size absolute-unit arms (the arms of convert_length are in Gen/Units.v) *)")
+    o.append("Definition fs_Px (n dpi : Q) : Q := n.")
     for u in UNIT_ORDER:
         o.append("Definition fs_%s (n dpi : Q) : Q := %s." % (u, t['fs'][u]))
     o.append("(* font-relative arms (font_size = the font size resolved so far, i.e. the parent's) *)")
